@@ -1,5 +1,5 @@
 (* Trusted glue: conversions between OCaml ints/strings and the extracted Coq datatypes. *)
-open Model
+open Respmodel
 
 let rec pos_of_int (i : int) : positive =
   if i = 1 then XH
